@@ -2,7 +2,15 @@
 """prints the prompt given to a fresh sub-agent that seeds a property-breaking change (nothing from /verif)"""
 import json, sys
 pid = sys.argv[1]
-wt = f"/tmp/seed-{pid}"
+rnd = sys.argv[2] if len(sys.argv) > 2 else ""
+wt = f"/tmp/seed-{pid}{rnd}"
+import glob
+avoid = []
+for f in sorted(glob.glob(f"/verif/seeded/{pid}-*/meta.json")):
+    try:
+        avoid.append(json.load(open(f)).get("summary", ""))
+    except Exception:
+        pass
 p = next(json.loads(l) for l in open("/verif/properties.jsonl") if json.loads(l)["id"] == pid)
 print(f"""You are helping to evaluate a verification tool by seeding realistic bugs. Work ONLY inside the directory {wt} — a scratch git worktree of the Python library `pdtable` (reader/writer for the StarTable tabular format: CSV, Excel, JSON; tables are pandas DataFrames with units). Do not read or write anything under /verif or /repo; do not use git commit. Run Python as `cd {wt} && PYTHONPATH={wt} /venv/bin/python ...` so that the worktree's `pdtable` is the one imported (check with `python -c "import pdtable; print(pdtable.__file__)"`).
 
@@ -13,9 +21,9 @@ STATEMENT: {p['statement']}
 QUANTIFIED OVER: {p['quantifier']['text']}
 CODE INVOLVED: {', '.join(p['anchors']['files'])}
 
-Your task: produce TWO different small changes to the library source (files under {wt}/pdtable/, never tests), each of which makes the property FALSE for some inputs, while:
+{("Changes of the following kinds were already tried by others — do something DIFFERENT in mechanism and location: " + " | ".join(a for a in avoid if a) + chr(10) + chr(10)) if avoid else ""}Your task: produce TWO different small changes to the library source (files under {wt}/pdtable/, never tests), each of which makes the property FALSE for some inputs, while:
  (a) the package still imports and compiles;
- (b) every test that passes now still passes. Before changing anything record the baseline: `cd {wt} && PYTHONPATH={wt} /venv/bin/python -m pytest -q -p no:cacheprovider --timeout=900 --continue-on-collection-errors -rA 2>&1 | grep -E "^(PASSED|FAILED|ERROR)" | sort > /tmp/seed-{pid}-base.txt` (about 163 pass, a few fail for unrelated reasons); after each change the set of PASSED lines must be a superset of the baseline's;
+ (b) every test that passes now still passes. Before changing anything record the baseline: `cd {wt} && PYTHONPATH={wt} /venv/bin/python -m pytest -q -p no:cacheprovider --timeout=900 --continue-on-collection-errors -rA 2>&1 | grep -E "^(PASSED|FAILED|ERROR)" | sort > /tmp/seed-{pid}{rnd}-base.txt` (about 163 pass, a few fail for unrelated reasons); after each change the set of PASSED lines must be a superset of the baseline's;
  (c) the bug needs something specific to manifest — an unusual but legitimate input, a particular multi-step sequence of operations, a crash/fault at a particular point, or two cooperating sites that each look fine alone — NOT something ordinary use or a casual smoke test would expose at once. Prefer subtle, realistic mistakes (an off-by-one at a boundary, a condition that is wrong only for an edge shape, a missing copy, a wrong default, state carried across calls, an early return) over blunt ones.
 
 For each change i in {{1, 2}} write into {wt}/out/m{{i}}/ :
